@@ -5,7 +5,7 @@
    `clean` flag of Runner.finish_test, on which the per-test status of C03, C04, C13 and C17 rests.
    Statements only; proofs are in Lemmas_Code_Cute.v. *)
 From Coq Require Import List ZArith String Bool.
-From CgreenVerif Require Import CLite Runner Lemmas_Code_Reporter Lemmas_Code_Cute.
+From CgreenVerif Require Import CLite Runner Lemmas_Code_Reporter Lemmas_Code_Cute Lemmas_Code_Cute2.
 From CgreenVerif.Gen Require Import Code_reporter.
 Import ListNotations.
 Local Open Scope string_scope. Local Open Scope list_scope. Local Open Scope Z_scope.
@@ -66,6 +66,44 @@ Theorem Code_cute_failed_to_complete :
                      (("printf", [VLit error_fmt; VInt 0]) :: ("get_current_from_breadcrumb", [VInt 77]) :: tr)).
 Proof. exact cute_failed_to_complete_refines. Qed.
 Print Assumptions Code_cute_failed_to_complete.
+
+(* the per-suite functions: the counters restart at zero when a suite starts ... *)
+Theorem Code_cute_start_suite :
+  forall ec pe k t dur extra pipe tr n name count,
+    (2 <= n)%nat ->
+    run_fun prog_reporter n "cute_start_suite" [VPtr 0 0; name; count] (cwt ec pe k t dur extra pipe tr) =
+    Fine (VInt 0, cwt ec pe czero t dur extra pipe
+                      (("printf", [VLit beginning_fmt; name; count]) :: ("push_breadcrumb", [VInt 77; name]) :: tr)).
+Proof. exact cute_start_suite_refines. Qed.
+Print Assumptions Code_cute_start_suite.
+
+(* ... and when it ends (outermost suite: get_breadcrumb_depth() answers 0) what is left in the pipe is read as
+   reporter_finish_test() reads it, every one of the four counters is added to its total (no sum leaves the
+   range of int: hypothesis), and the numbers in the "#ending" line are those sums, each with the plural its own
+   value asks for *)
+Theorem Code_cute_finish_suite :
+  forall ec pe pipe k t dur extra tr n file line,
+    (List.length pipe + 2 < n)%nat -> bounded k (List.length pipe + 1) ->
+    (forall k2, k2 = after_finish pipe k ->
+       -2147483648 <= passes t + passes k2 <= 2147483647 /\ -2147483648 <= failures t + failures k2 <= 2147483647 /\
+       -2147483648 <= skips t + skips k2 <= 2147483647 /\ -2147483648 <= exceptions t + exceptions k2 <= 2147483647) ->
+    exists tr1,
+      Forall is_recv tr1 /\
+      run_fun prog_reporter n "cute_finish_suite" [VPtr 0 0; file; line] (cwt ec pe k t dur extra pipe tr) =
+      (let k2 := after_finish pipe k in
+       let t2 := cadd t k2 in
+       let st := snd (read_results pipe k false) in
+       let rest := fst (fst (read_results pipe k false)) in
+       Fine (VInt 0, cwt ec pe k2 t2 dur extra rest
+                        ([("printf", [VLit totals_fmt; VInt (passes t2); plural (passes t2) [101; 115];
+                                      VInt (failures t2); plural (failures t2) [115];
+                                      VInt (exceptions t2); plural (exceptions t2) [115]; VInt dur]);
+                          ("get_breadcrumb_depth", [VInt 77]);
+                          ("printf", [VLit ending_fmt; VInt 0])] ++
+                         finish_events st file line (VInt 0) ++ tr1 ++
+                         ("get_current_from_breadcrumb", [VInt 77]) :: tr))).
+Proof. exact cute_finish_suite_refines. Qed.
+Print Assumptions Code_cute_finish_suite.
 
 (* non-vacuity: a test that passes twice after a failing predecessor is marked successful; one that fails is not *)
 Example Code_cute_example_success :
